@@ -246,3 +246,134 @@ Proof.
   rewrite H2, E2. rewrite H4, E3. unfold holds_C17. simpl.
   rewrite <- H1, <- H3, <- H5, <- H6, <- H7, <- H4, <- H2. reflexivity.
 Qed.
+
+(* ------------------------------------------------------------------ the repaired link map (bfa6c64, 55c0c50) *)
+Lemma aset_fresh : forall X k (v : X) l, alookup k l = None -> aset k v l = l ++ [(k, v)].
+Proof.
+  induction l as [|[k' v'] l IH]; simpl; intro H; [reflexivity|].
+  destruct (str_eqb k k'); [discriminate|]. rewrite IH by exact H. reflexivity.
+Qed.
+
+(* accepted link maps: one distinct key per selected job, no key leaves the view *)
+Lemma build_links_spec : forall js acc lk,
+  build_links js acc = Ok lk ->
+  NoDup (map fst acc) -> (forall k, In k (map fst acc) -> leaves_view k = false) ->
+  NoDup (map fst lk) /\ (forall k, In k (map fst lk) -> leaves_view k = false) /\
+  length lk = (length acc + length js)%nat.
+Proof.
+  induction js as [|j js IH]; intros acc lk H Hnd Hlv; simpl in H.
+  - inversion H; subst. repeat split; auto.
+  - destruct (j_pf j) as [p|e]; [|discriminate].
+    destruct (alookup (normpath_str (join_leaf p)) acc) eqn:L; [discriminate|].
+    destruct (leaves_view (normpath_str (join_leaf p))) eqn:Lv; [discriminate|]. simpl in H.
+    rewrite aset_fresh in H by exact L.
+    destruct (IH _ _ H) as [H1 [H2 H3]].
+    + rewrite map_app. simpl. apply NoDup_rev in Hnd. rewrite <- (rev_involutive (map fst acc ++ _)). apply NoDup_rev.
+      rewrite rev_app_distr. simpl. constructor; [|exact Hnd].
+      intro Hin. apply in_rev in Hin. apply alookup_None_notin in L. contradiction.
+    + intros k Hk. rewrite map_app in Hk. apply in_app_or in Hk. destruct Hk as [Hk|[<-|[]]]; auto.
+    + split; [exact H1|]. split; [exact H2|]. rewrite H3, app_length. simpl. lia.
+Qed.
+
+Lemma make_links_spec : forall c lk,
+  make_links c = Ok lk -> c_jobs c <> [] ->
+  NoDup (map fst lk) /\ (forall k, In k (map fst lk) -> leaves_view k = false) /\
+  length lk = length (c_jobs c).
+Proof.
+  intros c lk H Hne. unfold make_links in H.
+  destruct (existsb _ (c_jobs c)); [discriminate|]. destruct (c_pfmake c); [discriminate|].
+  destruct (build_links (c_jobs c) []) as [lk0|e] eqn:B; [|discriminate].
+  destruct (build_links_spec _ _ _ B) as [H1 [H2 H3]]; [constructor|intros k []|].
+  destruct lk0 as [|x lk0'].
+  - simpl in H3. destruct (c_jobs c); [congruence|discriminate].
+  - inversion H; subst. auto.
+Qed.
+
+(* two selected jobs with the same path are rejected *)
+Lemma duplicate_paths_rejected : forall js1 j1 js2 j2 js3 acc p,
+  j_pf j1 = Ok p -> j_pf j2 = Ok p ->
+  exists e, build_links (js1 ++ j1 :: js2 ++ j2 :: js3) acc = Err e.
+Proof.
+  intros js1 j1 js2 j2 js3 acc p H1 H2.
+  destruct (build_links (js1 ++ j1 :: js2 ++ j2 :: js3) acc) as [lk|e] eqn:B; [|eauto]. exfalso.
+  revert acc B. induction js1 as [|j js1 IH]; intros acc B; simpl in B.
+  - rewrite H1 in B.
+    destruct (alookup (normpath_str (join_leaf p)) acc) eqn:L; [discriminate|].
+    destruct (leaves_view (normpath_str (join_leaf p))); [discriminate|]. simpl in B.
+    set (k := normpath_str (join_leaf p)) in *.
+    assert (G : forall js acc', alookup k acc' <> None -> build_links (js ++ j2 :: js3) acc' = Ok lk -> False).
+    { clear - H2. induction js as [|j js IHj]; intros acc' Hk B'; simpl in B'.
+      - rewrite H2 in B'. fold k in B'. destruct (alookup k acc'); [discriminate|congruence].
+      - destruct (j_pf j) as [q|]; [|discriminate].
+        destruct (alookup (normpath_str (join_leaf q)) acc') eqn:Lq; [discriminate|].
+        destruct (leaves_view (normpath_str (join_leaf q))); [discriminate|]. simpl in B'.
+        refine (IHj _ _ B').
+        destruct (str_eq_dec k (normpath_str (join_leaf q))) as [E|Ne].
+        + rewrite E, alookup_aset_same. discriminate.
+        + rewrite alookup_aset_other by (intro E; apply Ne; symmetry; exact E). exact Hk. }
+    refine (G js2 _ _ B). rewrite alookup_aset_same. discriminate.
+  - destruct (j_pf j) as [q|]; [|discriminate].
+    destruct (alookup (normpath_str (join_leaf q)) acc); [discriminate|].
+    destruct (leaves_view (normpath_str (join_leaf q))); [discriminate|]. simpl in B. eapply IH; eauto.
+Qed.
+
+Lemma snoc_like : forall X (l : list X), l = [] \/ exists l' a, l = l' ++ [a].
+Proof.
+  intros X l. destruct l as [|x l]; [left; reflexivity|right].
+  destruct (@exists_last _ (x :: l)) as [l' [a E]]; [discriminate|]. eauto.
+Qed.
+
+(* normalised relative paths: a block of ".." followed by ordinary names *)
+Definition nplain (c : str) : Prop := skipc c = false /\ updir c = false.
+Definition nshape (l : path) : Prop :=
+  exists ups names, l = ups ++ names /\ Forall (fun c => updir c = true) ups /\ Forall nplain names.
+
+Lemma normrel_aux_shape : forall cs acc, nshape (rev acc) -> nshape (normrel_aux acc cs).
+Proof.
+  induction cs as [|c cs IH]; intros acc H; simpl; [exact H|].
+  destruct (skipc c) eqn:Sk; [apply IH; exact H|].
+  destruct (updir c) eqn:Up.
+  - destruct acc as [|a acc'].
+    + apply IH. exists [c], []. simpl. repeat split; auto.
+    + destruct H as [ups [names [E [Hu Hn]]]]. simpl in E.
+      destruct (updir a) eqn:Ua.
+      * apply IH. simpl. rewrite E.
+        assert (names = []).
+        { destruct (snoc_like _ names) as [->|[n' [z ->]]]; [reflexivity|]. exfalso.
+          rewrite app_assoc in E. apply app_inj_tail in E. destruct E as [_ <-].
+          apply Forall_app in Hn. destruct Hn as [_ Hn]. inversion Hn as [|? ? [_ Hz] _]; subst. congruence. }
+        subst names. rewrite app_nil_r. exists (ups ++ [c]), []. rewrite app_nil_r. repeat split; auto.
+        apply Forall_app. split; auto.
+      * apply IH.
+        destruct (snoc_like _ names) as [->|[n' [z ->]]].
+        -- exfalso. rewrite app_nil_r in E. rewrite <- E in Hu. apply Forall_app in Hu. destruct Hu as [_ Hu].
+           inversion Hu; subst. congruence.
+        -- rewrite app_assoc in E. apply app_inj_tail in E. destruct E as [E _].
+           exists ups, n'. split; [exact E|]. split; [exact Hu|]. apply Forall_app in Hn. tauto.
+  - apply IH. simpl. destruct H as [ups [names [E [Hu Hn]]]]. rewrite E.
+    exists ups, (names ++ [c]). rewrite app_assoc. repeat split; auto.
+    apply Forall_app. split; [exact Hn|]. constructor; [split; assumption|constructor].
+Qed.
+
+(* containment: an accepted link key is relative and has no ".." component at all *)
+Lemma key_contained : forall p,
+  leaves_view (normpath_str (join_leaf p)) = false ->
+  exists r, normpath_str (join_leaf p) = join_sep r /\ Forall (fun c => updir c = false) r.
+Proof.
+  intros p H. unfold normpath_str in *.
+  destruct (is_abs (split_sep (join_leaf p)) || match join_leaf p with [x] => N.eqb x SEP | _ => false end).
+  - unfold leaves_view in H. simpl in H. discriminate.
+  - exists (normrel (split_sep (join_leaf p))). split; [reflexivity|].
+    unfold normrel in *.
+    destruct (normrel_aux_shape (split_sep (join_leaf p)) []) as [ups [names [E [Hu Hn]]]].
+    { exists [], []. repeat split; constructor. }
+    destruct (normrel_aux [] (split_sep (join_leaf p))) as [|x l] eqn:R.
+    + repeat constructor.
+    + destruct ups as [|u ups'].
+      * simpl in E. rewrite E. eapply Forall_impl; [|exact Hn]. intros a [_ Ha]. exact Ha.
+      * exfalso. simpl in E. inversion E; subst x l. inversion Hu as [|? ? Hu1 _]; subst.
+        apply str_eqb_eq in Hu1. subst u. unfold leaves_view in H.
+        destruct (ups' ++ names) as [|y l'].
+        -- simpl in H. discriminate.
+        -- simpl in H. discriminate.
+Qed.
